@@ -80,8 +80,11 @@ def _to_case(r, stat):
     for g in range(ng):
         m = r.randint(2, 7)
         labs = [0, 1] + [r.randint(0, 1) for _ in range(m - 2)]
+        anti = r.chance(1, 4)          # a group whose scores are anti-correlated with its labels
         for l in labs:
-            sf.append(names[g]); y.append(l); s.append(r.randint(0, hi) / den)
+            sf.append(names[g]); y.append(l)
+            s.append((r.randint(0, hi // 2) if l == 1 else r.randint(hi // 2 + 1, hi)) / den if anti
+                     else r.randint(0, hi) / den)
     perm = list(range(len(y))); r.shuffle(perm)
     eo = r.chance(1, 4)
     c = {"kind": "to", "sf": [sf[p] for p in perm], "y": [y[p] for p in perm], "score": [s[p] for p in perm],
@@ -643,7 +646,10 @@ def compare(case, out, model):
         if not case["flip"] and len(gt) != len(out["rules"]):
             v.append((f"{PID}/{ep}/fit/flip-false-produced-less-than-operation", "a '<' operation without flip",
                       "flip=False uses '>' only", "correspondence"))
-        for g in gt:
+        # the property's clause: WITHOUT flip the positive probability never decreases with the score, for every
+        # group (whatever operations the fitted rule holds); with flip only for rules made of '>' operations
+        mono_groups = {r["group"] for r in out["rules"]} if not case["flip"] else gt
+        for g in mono_groups:
             rows = sorted((s, pmf[i][1]) for i, (gg, s) in enumerate(out["qrows"]) if gg == g)
             for (s1, p1), (s2, p2) in zip(rows, rows[1:]):
                 if p2 < p1 - TOL:
